@@ -52,7 +52,13 @@ pub fn digest_line(seed: u64, i: u64) -> String {
         Ok(v) => v,
         Err((_, e)) => return format!("{desc} => CONFIG-REJECTED {e}"),
     };
-    let src = TestSource::new(Arc::clone(&audio), if i % 3 == 0 { FillMode::Bytes } else { FillMode::Int }, i % 4 == 0);
+    let mut src = TestSource::new(Arc::clone(&audio), if i % 3 == 0 { FillMode::Bytes } else { FillMode::Int }, i % 4 == 0);
+    // a pipe-style source: every third read is short although input remains (what the library
+    // does with it may be debatable, but it must not depend on the feature set)
+    if i % 11 == 3 {
+        src.short_reads = 3;
+        src.hint = false;
+    }
     match flacenc::encode_with_fixed_block_size(&ver, src, block) {
         Ok(stream) => {
             let mut sink = ByteSink::new();
